@@ -423,6 +423,9 @@ func init() {
 			if r.Chance(2, 3) {
 				c.ensureModules("remember")
 			}
+			if r.Chance(1, 4) {
+				c.Mount = "/pro" // the paths of the protected routes (/probe/...) begin with the mount string
+			}
 			c.EmailAuth2FA = false
 			for i := range c.Accounts {
 				c.Accounts[i].Confirmed = true
